@@ -114,3 +114,91 @@ def inbound_menu(inst, side, w, x, all_elements=False, own=None):
             seen.add(b)
             ded.append((k, b))
     return ded
+
+
+# ---------------------------------------------------------------------------
+# structured "byte-pattern" menus for the shipped (large) groups: the tiny groups are enumerated completely, but code
+# paths selected by a byte value at some position of a 32..384-byte string, by a bit length or by a carry only exist at
+# realistic sizes.  These menus are bounded, systematic alphabets over such patterns (not samples).
+
+def pattern_scalars(q, level=1):
+    """scalars below q with a distinguished byte (00/ff/80/01) at every byte position, every bit length, runs of ff/00.
+    level 0: positions {0,1,mid,last-1,last} only"""
+    nb = (q.bit_length() + 7) // 8
+    pos = list(range(nb)) if level else sorted({0, 1, nb // 2, nb - 2, nb - 1})
+    out = []
+    base = int.from_bytes(bytes([0x5a] * nb), "big") % q
+    for i in pos:
+        for v in (0x00, 0xff, 0x80, 0x01):
+            x = (base & ~(0xff << (8 * i))) | (v << (8 * i))
+            out.append(x % q)
+        out.append((0xff << (8 * i)) % q)
+        out.append((1 << (8 * i)) % q)
+        out.append(((1 << (8 * i)) - 1) % q)
+    bits = range(1, q.bit_length() + 1) if level else range(1, q.bit_length() + 1, 8)
+    for b in bits:
+        out.append(((1 << b) - 1) % q)
+        out.append((1 << (b - 1)) % q)
+    ded = []
+    for x in out:
+        if x not in ded:
+            ded.append(x)
+    return ded
+
+
+def pattern_element_scalars(R, start_elem, step_elem, want_positions=None, values=(0x00, 0xff, 0x80), limit=6000):
+    """scalars k (found by walking e_k = start + k*step with the REFERENCE arithmetic) such that the encodings enc(e_k) cover
+    every (byte position, value) class.  Returns {(pos, value): k}."""
+    n = R.esize
+    want = {(i, v) for i in (range(n) if want_positions is None else want_positions) for v in values}
+    found = {}
+    e = start_elem
+    for k in range(limit):
+        b = R.enc(e)
+        for i in (range(n) if want_positions is None else want_positions):
+            key = (i, b[i])
+            if key in want and key not in found:
+                found[key] = k
+        if len(found) == len(want):
+            break
+        e = R.add(e, step_elem)
+    return found
+
+
+def pattern_positions(R, level):
+    n = R.esize
+    if level or n <= 32:
+        return None            # all positions
+    return sorted({0, 1, 2, n // 3, n // 2, n - 3, n - 2, n - 1})
+
+
+def pattern_sessions(inst, side, pw, level):
+    """[(x, inbound, tag)] for the shipped groups: own scalars whose MESSAGE covers every (byte position, 00/ff/80) class,
+    peer scalars for which the shared element K = x*y*G covers them (x fixed), and scalars with a distinguished byte at every
+    position / every bit length.  level 0 = quick subset."""
+    from ..ref import spake2 as RS
+    R, rp, q = inst.ref, inst.rp, inst.q
+    w = R.pw_scalar(pw)
+    peer = PEER[side]
+    G = R.base()
+    out = []
+    pos = pattern_positions(R, level)
+    y0 = 0x1234567 % q
+    inbound0 = RS.message(rp, peer, w, y0)
+    own = pattern_element_scalars(R, R.mul(rp.blind(side), w), G, pos)
+    for key, k in sorted(own.items()):
+        out.append((k % q, inbound0, "msg[%d]=%02x" % key))
+    x0 = 0x7654321 % q
+    ks = pattern_element_scalars(R, R.identity, R.mul(G, x0), pos)
+    for key, k in sorted(ks.items()):
+        if k == 0:
+            continue
+        out.append((x0, RS.message(rp, peer, w, k % q), "K[%d]=%02x" % key))
+    for x in pattern_scalars(q, level):
+        out.append((x, inbound0, "scalar-pattern"))
+    seen, ded = set(), []
+    for x, inb, tag in out:
+        if (x, inb) not in seen:
+            seen.add((x, inb))
+            ded.append((x, inb, tag))
+    return ded
